@@ -144,6 +144,11 @@ def check(w):
         n += 1
         if r['status'] >= 400:
             proxy_error = True              # origins in this world only ever answer 200
+            if r['trailing']:
+                # the rejection is the last thing the proxy may say on this connection
+                out.append({'symptom': 'bytes_after_error_response', 'features': {},
+                            'detail': {'input': data, 'rx': rx[:300], 'extra': r['trailing'][:120]}})
+                return out
         if r['trailing'] == stream:
             break
         stream = r['trailing']
